@@ -41,6 +41,16 @@ pub fn cypher_of(tok: &str) -> Option<String> {
     if tok == "inc" {
         return Some("MATCH (n:C) SET n.v = n.v + 1".into());
     }
+    if tok == "incA" {
+        return Some("MATCH (c:C) SET c.v = c.v + 1 CREATE (:A)".into());
+    }
+    if tok == "lab" {
+        return Some("MATCH (c:C) SET c:Hot SET c.v = c.v + 1".into());
+    }
+    if let Some(k) = tok.strip_prefix("merge") {
+        let k: i64 = k.parse().ok()?;
+        return Some(format!("MERGE (:S {{k: {}}})", k));
+    }
     if tok == "dbl" {
         return Some("MATCH (n:C) SET n.v = n.v * 2".into());
     }
@@ -81,9 +91,9 @@ pub fn query_json(db: DbPtr, cypher: &str) -> Option<serde_json::Value> {
     out
 }
 
-fn counter(db: DbPtr) -> String {
-    match query_json(db, "MATCH (n:C) RETURN n.v AS v") {
-        Some(serde_json::Value::Array(rows)) if rows.len() == 1 => match rows[0].get("v") {
+fn one_int(db: DbPtr, q: &str, col: &str) -> String {
+    match query_json(db, q) {
+        Some(serde_json::Value::Array(rows)) if rows.len() == 1 => match rows[0].get(col) {
             Some(serde_json::Value::Number(n)) if n.is_i64() => n.as_i64().unwrap().to_string(),
             Some(other) => format!("val:{}", other),
             None => "nocol".into(),
@@ -91,6 +101,17 @@ fn counter(db: DbPtr) -> String {
         Some(serde_json::Value::Array(rows)) => format!("rows:{}", rows.len()),
         _ => "qerr".into(),
     }
+}
+
+/// what the stream observes: `c.v`, number of `:A` nodes, number of `:S {k:0}` and `:S {k:1}` nodes
+fn counter(db: DbPtr) -> String {
+    format!(
+        "{}.{}.{}.{}",
+        one_int(db, "MATCH (n:C) RETURN n.v AS v", "v"),
+        one_int(db, "MATCH (a:A) RETURN count(a) AS c", "c"),
+        one_int(db, "MATCH (s:S {k: 0}) RETURN count(s) AS c", "c"),
+        one_int(db, "MATCH (s:S {k: 1}) RETURN count(s) AS c", "c"),
+    )
 }
 
 impl State for S {
@@ -120,13 +141,14 @@ impl State for S {
                 let rc = exec_write(db, &q);
                 format!("{} | {}", counter(db), rc)
             }
-            ["race", a, b] => {
+            ["race", a, b] | ["racec", a, b, _] => {
                 let (Some(db), Some(qa), Some(qb)) = (self.db, cypher_of(a), cypher_of(b)) else {
                     return "bad-op".into();
                 };
+                let point = if ws.len() == 4 { ws[3].to_string() } else { "capi.autocommit.between".to_string() };
                 let ctl = sched::ctl();
-                // thread A: runs up to the point between the two calls
-                let wa = ctl.spawn("A", Some("capi.autocommit.between"), move || exec_write(db, &qa));
+                // thread A: runs up to the scheduling point
+                let wa = ctl.spawn("A", Some(&point), move || exec_write(db, &qa));
                 if ctl.wait("A", sched::LONG) != Wait::Parked {
                     let _ = wa.join();
                     return "A-did-not-reach-hook".into();
@@ -161,28 +183,64 @@ impl State for S {
                 }
                 counter(db)
             }
+            ["stressm", n, k] => {
+                // contention with label-mutating statements: every thread k rounds of `incA; merge (round % 2)`
+                let (Some(db), Ok(n), Ok(k)) = (self.db, n.parse::<usize>(), k.parse::<usize>()) else {
+                    return "bad-op".into();
+                };
+                let barrier = std::sync::Arc::new(std::sync::Barrier::new(n));
+                let hs: Vec<_> = (0..n)
+                    .map(|_| {
+                        let barrier = barrier.clone();
+                        std::thread::spawn(move || {
+                            let db = db;
+                            barrier.wait();
+                            for r in 0..k {
+                                exec_write(db, "MATCH (c:C) SET c.v = c.v + 1 CREATE (:A)");
+                                exec_write(db, &format!("MERGE (:S {{k: {}}})", r % 2));
+                            }
+                        })
+                    })
+                    .collect();
+                for h in hs {
+                    let _ = h.join();
+                }
+                counter(db)
+            }
             _ => "bad-op".into(),
         }
     }
 }
 
 fn gen_stmt(rng: &mut Rng) -> String {
-    match rng.below(6) {
+    match rng.below(10) {
         0 | 1 => "inc".into(),
         2 => "dbl".into(),
         3 => format!("set{}", rng.below(5)),
-        _ => format!("cas{}_{}", rng.below(4), rng.below(9)),
+        4 => format!("cas{}_{}", rng.below(4), rng.below(9)),
+        5 | 6 => "incA".into(),
+        7 => "lab".into(),
+        _ => format!("merge{}", rng.below(2)),
     }
 }
 
+const COMMIT_POINTS: &[&str] = &["commit.after_wal", "commit.after_idmap", "commit.after_node_labels"];
+
 fn generate(rng: &mut Rng, n: usize, tier: &str, out: &mut dyn Write) {
-    // fixed part: the lost-update witness shapes
+    // fixed part: the lost-update witness shapes, at the point between snapshot()/begin_write() and at
+    // every point inside commit (the writer guard must still be held there)
     writeln!(out, "#case fixed").unwrap();
     writeln!(out, "open").unwrap();
     for (a, b) in [("inc", "inc"), ("inc", "dbl"), ("dbl", "inc"), ("cas2_7", "inc"), ("set3", "cas3_0")] {
         writeln!(out, "race {} {}", a, b).unwrap();
     }
+    for p in COMMIT_POINTS {
+        for (a, b) in [("incA", "incA"), ("merge0", "merge0"), ("lab", "inc"), ("inc", "incA")] {
+            writeln!(out, "racec {} {} {}", a, b, p).unwrap();
+        }
+    }
     writeln!(out, "stress 4 {}", if tier == "thorough" { 200 } else { 15 }).unwrap();
+    writeln!(out, "stressm 6 {}", if tier == "thorough" { 150 } else { 6 }).unwrap();
     writeln!(out, "get").unwrap();
     // random part: n op lines in cases of ~8 ops
     let mut left = n;
@@ -193,10 +251,14 @@ fn generate(rng: &mut Rng, n: usize, tier: &str, out: &mut dyn Write) {
         writeln!(out, "open").unwrap();
         let len = 3 + rng.below(6) as usize;
         for _ in 0..len.min(left) {
-            match rng.below(10) {
-                0..=5 => writeln!(out, "race {} {}", gen_stmt(rng), gen_stmt(rng)).unwrap(),
-                6 | 7 => writeln!(out, "seq {}", gen_stmt(rng)).unwrap(),
-                8 => writeln!(out, "stress {} {}", 2 + rng.below(3), 2 + rng.below(6)).unwrap(),
+            match rng.below(12) {
+                0..=2 => writeln!(out, "race {} {}", gen_stmt(rng), gen_stmt(rng)).unwrap(),
+                3..=6 => {
+                    writeln!(out, "racec {} {} {}", gen_stmt(rng), gen_stmt(rng), rng.pick(COMMIT_POINTS)).unwrap()
+                }
+                7 | 8 => writeln!(out, "seq {}", gen_stmt(rng)).unwrap(),
+                9 => writeln!(out, "stress {} {}", 2 + rng.below(3), 2 + rng.below(6)).unwrap(),
+                10 => writeln!(out, "stressm {} {}", 2 + rng.below(4), 2 + rng.below(4)).unwrap(),
                 _ => writeln!(out, "get").unwrap(),
             }
         }
